@@ -8,7 +8,7 @@ all end in `_get_quantiles(X, width, quantiles, modelmat, lp, prediction, xform,
 
 ```
 quantiles = np.atleast_1d(quantiles)  if quantiles is not None  else [alpha, 1 - alpha],  alpha = (1 - width) / 2.0
-for quantile in quantiles:  if quantile >= 1 or quantile <= 0: raise ValueError
+for quantile in quantiles:  if not (0 < quantile < 1): raise ValueError        # also NaN
 idxs = coef indices of `term` (all for term = -1);  cov = statistics_['cov'][idxs][:, idxs]
 var  = (modelmat.dot(cov) * modelmat.A).sum(axis=1);  if prediction: var += distribution.scale
 q    = norm.ppf(quantile) if distribution._known_scale else t.ppf(quantile, df = n_samples - edof)
@@ -37,15 +37,16 @@ inductive RefDist (α : Type)
   deriving Repr
 
 section quantiles
-variable [Zero α] [One α] [Add α] [Sub α] [Mul α] [Div α] [LE α] [DecidableLE α]
+variable [Zero α] [One α] [Add α] [Sub α] [Mul α] [Div α] [LE α] [DecidableLE α] [LT α] [DecidableLT α]
 
 /-- `alpha = (1 - width) / 2.0; quantiles = [alpha, 1 - alpha]` -/
 def quantilesOfWidth (w : α) : List α :=
   let alpha : α := (1 - w) / (1 + 1)
   [alpha, 1 - alpha]
 
-/-- `(quantile >= 1) or (quantile <= 0)` (false for NaN at `Float`, as in Python) -/
-def badQuantile (q : α) : Bool := decide ((1 : α) ≤ q) || decide (q ≤ (0 : α))
+/-- `not (0 < quantile < 1)`: rejected unless *both* comparisons hold, so a NaN level (for which every IEEE comparison
+is false) is rejected too -/
+def badQuantile (q : α) : Bool := !(decide ((0 : α) < q) && decide (q < (1 : α)))
 
 /-- `quantiles` wins over `width` when it is not `None` -/
 def resolveQuantiles (width : α) (quantiles : Option (List α)) : List α :=
@@ -86,7 +87,8 @@ def totalVar (prediction : Bool) (scale var : α) : α := if prediction then var
 end quantiles
 
 section bounds
-variable [Zero α] [One α] [Add α] [Sub α] [Mul α] [Div α] [Neg α] [LE α] [DecidableLE α] [ExpLog α]
+variable [Zero α] [One α] [Add α] [Sub α] [Mul α] [Div α] [Neg α] [LE α] [DecidableLE α] [LT α] [DecidableLT α]
+  [ExpLog α]
 
 /-- `lp + q * var ** 0.5` -/
 def linkBound (z lp var : α) : α := lp + z * ExpLog.sqrt var
